@@ -58,6 +58,8 @@ def mb_candidates(rng, cs, n):
             else:
                 b = [rng.randrange(0x81, 0x85), rng.randrange(0x30, 0x3A), rng.randrange(0x81, 0xFF), rng.randrange(0x30, 0x3A)]
         out.append(b)
+    if cs == "Shift_JIS":   # edges of the two Kanji-mode ranges (7.4.6: 8140..9FFC and E040..EBBF) and of JIS X 0208
+        out += [[0x81, 0x40], [0x81, 0x41], [0x9F, 0xFC], [0x9F, 0xFB], [0xE0, 0x40], [0xE0, 0x41], [0xEA, 0xA4], [0xEA, 0xA3], [0x88, 0x9F], [0x98, 0x72], [0x98, 0x9F]]
     return out
 
 
@@ -148,6 +150,11 @@ def build_events(ctx, strings, registry):
             events.append(ev("qr", hint=rng.choice(names[cs]), cs=cs, text=txt))
         for c in foreign[:3 if ctx.quick else 9]:
             events.append(ev("qr", hint=rng.choice(names[cs]), cs=cs, text=[c, rng.choice(chars)[0]]))
+        if cs == "Shift_JIS":       # every range-edge character alone (Kanji mode) and between two others
+            edges = [c for c in chars if c[1] in ([0x81, 0x40], [0x81, 0x41], [0x9F, 0xFC], [0x9F, 0xFB], [0xE0, 0x40], [0xE0, 0x41], [0xEA, 0xA4], [0xEA, 0xA3], [0x88, 0x9F], [0x98, 0x72], [0x98, 0x9F])]
+            for c in edges:
+                events.append(ev("qr", hint=names[cs][0], cs=cs, text=[c[0]]))
+                events.append(ev("qr", hint=names[cs][0], cs=cs, text=[rng.choice(chars)[0], c[0], rng.choice(chars)[0]]))
     for cs in ("UTF-8", "UTF-16BE"):
         for _ in range(reps):
             events.append(ev("qr", hint=rng.choice(names[cs]), cs=cs, text=random_cps(rng, rng.choice([1, 2, 5, 17, 40]))))
